@@ -1,7 +1,9 @@
 (* C08 -- Clients cannot alter or fake the server's $SYS information.
    Statements only; proofs in Proofs/SysGuard.v. *)
-From WB Require Import Base.Str Base.Json Model.Key Model.Consts Model.Store Model.Entry Model.Core
-  Proofs.SysGuard.
+From Coq Require Import List.
+Import ListNotations.
+From WB Require Import Base.Str Base.Json Model.Key Model.Consts Model.Store Model.Entry Model.Core Model.Rest Spec.MapSpec
+  Proofs.CoreFacts Proofs.C01Proof Proofs.SysGuard Proofs.RestFacts.
 
 (* for a key whose first segment is literally $SYS, an ordinary client passes the guard exactly
    for $SYS/clients/<own id>/{graveGoods,lastWill,clientName}[/...]; anything else is ReadOnlyKey *)
@@ -49,6 +51,27 @@ Proof.
   exists (fst (do_subscribe init 0 1 sys_sentinel false true)), (JStr [102]). vm_compute. auto.
 Qed.
 Print Assumptions C08_publish_refuted.
+
+(* an import -- the one request that carries a whole tree -- never reaches $SYS: whatever the tree contains, every path
+   whose first segment is $SYS reads afterwards as before (Store::merge strips $SYS: repair of F29), also through the REST
+   import endpoint, whatever the token allows *)
+Theorem C08_import_keeps_sys :
+  forall s j q, Inv s -> import_ok (OImport j) -> abs (fst (do_import s j)) (s_SYS :: q) = abs s (s_SYS :: q).
+Proof. exact import_keeps_sys. Qed.
+Print Assumptions C08_import_keeps_sys.
+
+Theorem C08_rest_import_keeps_sys :
+  forall auth tok s j q, Inv s -> import_ok (OImport j) ->
+    abs (fst (fst (rest_handle auth tok s (RImport j)))) (s_SYS :: q) = abs s (s_SYS :: q).
+Proof. exact rest_import_keeps_sys. Qed.
+Print Assumptions C08_rest_import_keeps_sys.
+
+Example C08_import_nonvacuous :
+  let s0 := fst (step init (OSet 0 [36;83;89;83;47;118]%N (JStr [120]%N) true)) in
+  let j := JObj [(s_data, JObj [(s_t, JObj [(s_SYS, JObj [(s_t, JObj [([118]%N, JObj [(s_v, JStr [101]%N)])])]); ([117]%N, JObj [(s_v, JNum [49]%N)])])])] in
+  let s1 := fst (fst (rest_handle false TNone s0 (RImport j))) in
+  abs s1 [s_SYS; [118]%N] = Some (Plain (JStr [120]%N)) /\ abs s1 [[117]%N] = Some (Plain (JNum [49]%N)).
+Proof. exact import_keeps_sys_demo. Qed.
 
 Example C08_nonvacuous :
   check_read_only (s_SYS ++ [47] ++ s_clients) 1 = Some E_ReadOnlyKey /\
